@@ -1,0 +1,64 @@
+//go:build verif
+
+package serve
+
+// Contracts for the verif engine (/verif). Comment-only: no code is compiled
+// from this file with or without the tag.
+
+// The serve command wires the server together; no test starts it. Every call it makes is abstracted
+// (arbitrary result, no effect): what is proved is the wiring itself - each request kind is registered
+// exactly once and with the coroutine of that operation, each background job is registered exactly once under
+// its name with its coroutine, and the subsystems are stopped only after the control loop has returned (the
+// loop returns when every accepted request has been answered; stopping the store earlier would drop them).
+//@ func ServeCmd$1
+//@ props C12 C06
+//@ abstract-calls .*
+//@ loop-complete 1
+//@ loop-complete 2
+//@ site call Stop assert [C12 C06] calls("Loop") == 1
+//@ site call Loop assert [C12 C06] calls("Stop") == 0
+//@ site call AddOnRequest assert [C01 C02 C04 C15] (kind == t_api.ReadPromise) == (funcname(constructor) == "ReadPromise")
+//@ site call AddOnRequest assert [C14 C15] (kind == t_api.SearchPromises) == (funcname(constructor) == "SearchPromises")
+//@ site call AddOnRequest assert [C01 C02 C03 C15] (kind == t_api.CreatePromise) == (funcname(constructor) == "CreatePromise")
+//@ site call AddOnRequest assert [C03 C08 C15] (kind == t_api.CreatePromiseAndTask) == (funcname(constructor) == "CreatePromiseAndTask")
+//@ site call AddOnRequest assert [C05 C15] (kind == t_api.CreateCallback) == (funcname(constructor) == "CreateCallback")
+//@ site call AddOnRequest assert [C05 C15] (kind == t_api.CreateSubscription) == (funcname(constructor) == "CreateSubscription")
+//@ site call AddOnRequest assert [C01 C02 C03 C04 C15] (kind == t_api.CompletePromise) == (funcname(constructor) == "CompletePromise")
+//@ site call AddOnRequest assert [C10 C15] (kind == t_api.ReadSchedule) == (funcname(constructor) == "ReadSchedule")
+//@ site call AddOnRequest assert [C14 C15] (kind == t_api.SearchSchedules) == (funcname(constructor) == "SearchSchedules")
+//@ site call AddOnRequest assert [C10 C15] (kind == t_api.CreateSchedule) == (funcname(constructor) == "CreateSchedule")
+//@ site call AddOnRequest assert [C10 C15] (kind == t_api.DeleteSchedule) == (funcname(constructor) == "DeleteSchedule")
+//@ site call AddOnRequest assert [C09 C15] (kind == t_api.AcquireLock) == (funcname(constructor) == "AcquireLock")
+//@ site call AddOnRequest assert [C09 C15] (kind == t_api.HeartbeatLocks) == (funcname(constructor) == "HeartbeatLocks")
+//@ site call AddOnRequest assert [C09 C15] (kind == t_api.ReleaseLock) == (funcname(constructor) == "ReleaseLock")
+//@ site call AddOnRequest assert [C07 C15] (kind == t_api.ClaimTask) == (funcname(constructor) == "ClaimTask")
+//@ site call AddOnRequest assert [C07 C08 C15] (kind == t_api.CompleteTask) == (funcname(constructor) == "CompleteTask")
+//@ site call AddOnRequest assert [C07 C15] (kind == t_api.HeartbeatTasks) == (funcname(constructor) == "HeartbeatTasks")
+//@ ensures [C01 C02 C04 C15] result == nil ==> callswith("AddOnRequest", 1, t_api.ReadPromise) == 1
+//@ ensures [C14 C15] result == nil ==> callswith("AddOnRequest", 1, t_api.SearchPromises) == 1
+//@ ensures [C01 C02 C03 C15] result == nil ==> callswith("AddOnRequest", 1, t_api.CreatePromise) == 1
+//@ ensures [C03 C08 C15] result == nil ==> callswith("AddOnRequest", 1, t_api.CreatePromiseAndTask) == 1
+//@ ensures [C05 C15] result == nil ==> callswith("AddOnRequest", 1, t_api.CreateCallback) == 1
+//@ ensures [C05 C15] result == nil ==> callswith("AddOnRequest", 1, t_api.CreateSubscription) == 1
+//@ ensures [C01 C02 C03 C04 C15] result == nil ==> callswith("AddOnRequest", 1, t_api.CompletePromise) == 1
+//@ ensures [C10 C15] result == nil ==> callswith("AddOnRequest", 1, t_api.ReadSchedule) == 1
+//@ ensures [C14 C15] result == nil ==> callswith("AddOnRequest", 1, t_api.SearchSchedules) == 1
+//@ ensures [C10 C15] result == nil ==> callswith("AddOnRequest", 1, t_api.CreateSchedule) == 1
+//@ ensures [C10 C15] result == nil ==> callswith("AddOnRequest", 1, t_api.DeleteSchedule) == 1
+//@ ensures [C09 C15] result == nil ==> callswith("AddOnRequest", 1, t_api.AcquireLock) == 1
+//@ ensures [C09 C15] result == nil ==> callswith("AddOnRequest", 1, t_api.HeartbeatLocks) == 1
+//@ ensures [C09 C15] result == nil ==> callswith("AddOnRequest", 1, t_api.ReleaseLock) == 1
+//@ ensures [C07 C15] result == nil ==> callswith("AddOnRequest", 1, t_api.ClaimTask) == 1
+//@ ensures [C07 C08 C15] result == nil ==> callswith("AddOnRequest", 1, t_api.CompleteTask) == 1
+//@ ensures [C07 C15] result == nil ==> callswith("AddOnRequest", 1, t_api.HeartbeatTasks) == 1
+//@ site call AddBackground assert [C04 C05 C06] (name == "TimeoutPromises") == (funcname(constructor) == "TimeoutPromises")
+//@ site call AddBackground assert [C10 C06] (name == "SchedulePromises") == (funcname(constructor) == "SchedulePromises")
+//@ site call AddBackground assert [C09 C06] (name == "TimeoutLocks") == (funcname(constructor) == "TimeoutLocks")
+//@ site call AddBackground assert [C08 C06] (name == "EnqueueTasks") == (funcname(constructor) == "EnqueueTasks")
+//@ site call AddBackground assert [C07 C06] (name == "TimeoutTasks") == (funcname(constructor) == "TimeoutTasks")
+//@ ensures [C04 C05 C06] result == nil ==> callswith("AddBackground", 1, "TimeoutPromises") == 1
+//@ ensures [C10 C06] result == nil ==> callswith("AddBackground", 1, "SchedulePromises") == 1
+//@ ensures [C09 C06] result == nil ==> callswith("AddBackground", 1, "TimeoutLocks") == 1
+//@ ensures [C08 C06] result == nil ==> callswith("AddBackground", 1, "EnqueueTasks") == 1
+//@ ensures [C07 C06] result == nil ==> callswith("AddBackground", 1, "TimeoutTasks") == 1
+//@ ensures [C12 C06] result == nil ==> calls("Loop") == 1 && calls("Stop") == 2
